@@ -13,6 +13,7 @@ import (
 	"os"
 	"sort"
 	"testing"
+	"time"
 )
 
 type c10Input struct {
@@ -20,6 +21,38 @@ type c10Input struct {
 	Steps int  `json:"steps"`
 	File  bool `json:"file"`
 }
+
+// an in-memory StoreFile (nothing is left behind in the file system, whatever happens to the run)
+type c10MemFile struct{ b []byte }
+
+func (f *c10MemFile) ReadAt(p []byte, off int64) (int, error) {
+	if off < 0 || off >= int64(len(f.b)) {
+		return 0, fmt.Errorf("EOF")
+	}
+	n := copy(p, f.b[off:])
+	if n < len(p) {
+		return n, fmt.Errorf("EOF")
+	}
+	return n, nil
+}
+func (f *c10MemFile) WriteAt(p []byte, off int64) (int, error) {
+	if need := int(off) + len(p); need > len(f.b) {
+		f.b = append(f.b, make([]byte, need-len(f.b))...)
+	}
+	copy(f.b[off:], p)
+	return len(p), nil
+}
+func (f *c10MemFile) Truncate(n int64) error     { f.b = f.b[:n]; return nil }
+func (f *c10MemFile) Stat() (os.FileInfo, error) { return c10Info{int64(len(f.b))}, nil }
+
+type c10Info struct{ n int64 }
+
+func (i c10Info) Name() string       { return "c10" }
+func (i c10Info) Size() int64        { return i.n }
+func (i c10Info) Mode() os.FileMode  { return 0600 }
+func (i c10Info) ModTime() time.Time { return time.Time{} }
+func (i c10Info) IsDir() bool        { return false }
+func (i c10Info) Sys() interface{}   { return nil }
 
 type c10Handle struct {
 	st    *Store
@@ -82,13 +115,7 @@ func c10Run(in c10Input) (what string) {
 	}()
 	var sf StoreFile
 	if in.File {
-		f, err := os.CreateTemp("", "c10bounded")
-		if err != nil {
-			return err.Error()
-		}
-		defer os.Remove(f.Name())
-		defer f.Close()
-		sf = f
+		sf = &c10MemFile{}
 	}
 	s, err := NewStore(sf)
 	if err != nil {
